@@ -41,6 +41,8 @@ enum {
   ORC_VERIF_PT_CODEMEM_FREE_MARKED,
   ORC_VERIF_PT_CODEMEM_FREE_MERGED_NEXT,
   ORC_VERIF_PT_CODEMEM_REGION_NEW,
+  /* orc_executor_emulate: before each instruction of each chunk */
+  ORC_VERIF_PT_EMULATE_STEP,
   ORC_VERIF_PT_LAST
 };
 
